@@ -104,11 +104,11 @@ def rand_spec(rng, depth, names=("item", "item", "a", "b")):
     for k in rng.sample(["p", "q", "r"], rng.randint(0, 2)):
         s["nsp"].append([k, rng.choice([U[k], U[k], "urn:other"])])
     used = set()
-    for _ in range(rng.randint(0, 2)):
+    for _ in range(rng.randint(0, 3)):
         ap = rng.choice([None, None, "p", "xml", "a"])
-        an = rng.choice(["k", "id", "a", "lang"])
-        if (ap, an) in used or any(an == u[1] for u in used):
-            continue
+        an = rng.choice(["k", "k", "id", "a", "lang"])
+        if (ap, an) in used or (any(an == u[1] for u in used) and rng.random() < 0.5):
+            continue        # (a qualified and an unqualified attribute may share their local name: p:k and k)
         used.add((ap, an))
         s["attrs"].append([ap, an, rng.choice(["v", "", "p:x"])])
     if depth > 0:
@@ -371,7 +371,8 @@ def clone_checks(ctx):
 
         def shape(x):
             return (x.name, x.namespace()[1], None if x.text is None else str(x.text),
-                    sorted((a.name, a.namespace()[1], None if a.value is None else str(a.value)) for a in x.attributes),
+                    sorted(((a.name, a.namespace()[1], None if a.value is None else str(a.value)) for a in x.attributes),
+                           key=lambda t: (t[0], t[1] or "", t[2] or "")),
                     [shape(y) for y in x.children])
         if shape(c) != shape(e):
             def bound_inside(x, top, prefix):
@@ -387,8 +388,9 @@ def clone_checks(ctx):
                 # o: the original node corresponding to x (same position); namespaces of attributes whose
                 # prefix is bound only above the cloned node are masked
                 return (x.name, x.namespace()[1], None if x.text is None else str(x.text),
-                        sorted((a.name, a.namespace()[1] if (oa.prefix is None or bound_inside(o, top, oa.prefix)) else "*",
-                                None if a.value is None else str(a.value)) for a, oa in zip(x.attributes, o.attributes)),
+                        sorted(((a.name, a.namespace()[1] if (oa.prefix is None or bound_inside(o, top, oa.prefix)) else "*",
+                                 None if a.value is None else str(a.value)) for a, oa in zip(x.attributes, o.attributes)),
+                               key=lambda t: (t[0], t[1] or "", t[2] or "")),
                         [masked(y, oy, top) for y, oy in zip(x.children, o.children)])
             same_shape = len(c.children) == len(e.children)
             ctx.fail("clone is not equal to the original (names, namespaces, attributes, text, children)", inp,
